@@ -33,9 +33,14 @@ func (a *AdvRefs) Encode(w io.Writer) error {
 	// Write first line: hash SP refname NUL capabilities
 	caps := a.Capabilities.String()
 	if firstName == "" {
-		// No refs: zero-id capabilities^{}
+		// No refs: zero-id capabilities^{}. The zero id has the length of the
+		// advertised object format (git sends 64 zeros for sha256).
+		zero := plumbing.ZeroHash.String()
+		if of := a.Capabilities.Get("object-format"); len(of) == 1 && of[0] == "sha256" {
+			zero = strings.Repeat("0", 64)
+		}
 		firstLine := fmt.Sprintf("%s %s\x00%s\n",
-			plumbing.ZeroHash.String(), "capabilities^{}", caps)
+			zero, "capabilities^{}", caps)
 		if _, err := pktline.WriteString(w, firstLine); err != nil {
 			return err
 		}
